@@ -68,6 +68,7 @@ impl Drop for CounterGuard {
 }
 
 fn worker(
+    first: BoxedDispatchable,
     receiver: Receiver<BoxedDispatchable>,
     counter: Arc<AtomicUsize>,
     timeout: Duration,
@@ -75,6 +76,10 @@ fn worker(
     move || {
         // The slot was reserved by `dispatch` before this thread was spawned.
         let _guard = CounterGuard(counter);
+        // The job this worker was spawned for travels with it: handing it over through
+        // the rendezvous channel would block the dispatcher forever if this worker's
+        // idle timeout fired first.
+        first.run();
         while let Ok(f) = receiver.recv_timeout(timeout) {
             f.run()
         }
@@ -131,11 +136,11 @@ impl AsyncifyPool {
                         }))
                     } else {
                         std::thread::spawn(worker(
+                            f,
                             self.receiver.clone(),
                             self.counter.clone(),
                             self.recv_timeout,
                         ));
-                        self.sender.send(f).expect("the channel should not be full");
                         Ok(())
                     }
                 }
